@@ -10,7 +10,7 @@ the bit level by harness/s_distributed.py).
   guard (fix 64265e7) — is only taken while the station's entry at the connector is below `eps` in absolute value,
   so a station that already discharged noticeably in this step (in the sub-strategy's own V2G pass) is skipped.
 -/
-import SpiceEv.Proofs.StratDistributedStation
+import SpiceEv.Proofs.StratDistributedBooked
 set_option linter.unusedSectionVars false
 set_option linter.unusedVariables false
 namespace SpiceEv
@@ -22,6 +22,7 @@ station types, sub-strategy choice, `number_cs`, stationary batteries (supportin
 virtual stations), V2G: if all station maxima (real and virtual) are non-negative, then after `Distributed.step`
 every station's accumulated power is at most its maximum. -/
 theorem C05_distributed_station_upper {B : Type} (dops : DOps α B) (law : BatLaw dops.bat) (de : DEnv α)
+    (hd : de.deps.ps = none) (ho : de.opps.ps = none)
     (s s' : DState α B) (cmds : List (String × α))
     (hmax : ∀ st ∈ s.world.stations, 0 ≤ st.maxPower) (hvirt : ∀ st ∈ s.init.virtualCs, 0 ≤ st.maxPower)
     (h : step dops de s = .ok (s', cmds)) :
@@ -57,7 +58,7 @@ theorem C05_distributed_station_upper {B : Type} (dops : DOps α B) (law : BatLa
               exact ⟨hmax x hx, hmax x hx⟩
             have hinv1 : StInv (w1, ini1, c1) :=
               foldlM_inv (stepGc dops de s.numberCs connected lk) StInv
-                (fun st x st' hi hs => stepGc_st dops law de s.numberCs connected lk st st' x hi hs) _ _ _ hinv0 hfold
+                (fun st x st' hi hs => stepGc_st dops law de hd ho s.numberCs connected lk st st' x hi hs) _ _ _ hinv0 hfold
             exact distributeSurplusOn_station dops.bat law de.env w1 w2 ids c2
               (fun st hst => (hinv1.ok st hst).2) hsur
 
@@ -103,6 +104,22 @@ theorem C05_distributed_v2g_once (gc : GcS α) (csId : String) (d eps : α)
   rw [abs_lt] at h1 h2
   constructor <;> linarith [h1.1, h1.2, h2.1, h2.2]
 
+/-- **Two-sided station bound through the final surplus pass (partial).** If before distributed's final surplus
+pass every station's entry at its connector equals the station's power (`Booked`, established by the greedy / balanced
+sub-step: `C06_distributed_substep_booked`), no battery id is a station id, station maxima are non-negative and every
+station's power is above `−(maximum + EPS)`, then the same holds after the pass: with the repaired guard a V2G discharge
+is only taken at a station whose power is below `EPS` in absolute value and moves at most the station maximum.
+Partial: the premise `Booked` for the complete world after the charging loop over all connectors (write-back of the
+virtual worlds) is not proved; see notes/S_DISTRIBUTED.md. -/
+theorem C05_distributed_final_pass_two_sided_partial {B : Type} (ops : BatOps α B) (law : BatLaw ops)
+    (env : StratEnv α) (w w' : SWorld α B) (ids : List String) (cmds' : List (String × α))
+    (hb : Booked w) (hd : Disj w) (hm : ∀ st ∈ w.stations, 0 ≤ st.maxPower)
+    (hl : ∀ st ∈ w.stations, -(st.maxPower + env.eps) < st.currentPower)
+    (h : distributeSurplusOn ops env w ids = .ok (w', cmds')) :
+    (∀ st ∈ w'.stations, -(st.maxPower + env.eps) < st.currentPower) ∧ Booked w' := by
+  obtain ⟨⟨b1, _⟩, _, l1⟩ := distributeSurplusOn_sinv ops law env w w' ids cmds' ⟨⟨hb, hd⟩, hm, hl⟩ h
+  exact ⟨l1, b1⟩
+
 /-- Non-vacuity of `C05_distributed_station_upper`: `toyState` (11 kW stations) satisfies the hypotheses, the step
 returns, and station CS_v1_opps ends at exactly its 11 kW. -/
 example : ∃ s' cmds, step (toyDOps 5) toyEnv toyState = .ok (s', cmds) ∧
@@ -112,7 +129,7 @@ example : ∃ s' cmds, step (toyDOps 5) toyEnv toyState = .ok (s', cmds) ∧
   | error e => rw [h] at hok; cases hok
   | ok r =>
     obtain ⟨s', cmds⟩ := r
-    refine ⟨s', cmds, rfl, C05_distributed_station_upper (toyDOps 5) (toyOps_law 5 (by norm_num)) toyEnv toyState s'
+    refine ⟨s', cmds, rfl, C05_distributed_station_upper (toyDOps 5) (toyOps_law 5 (by norm_num)) toyEnv rfl rfl toyState s'
       cmds ?_ ?_ h⟩
     · intro st hst
       simp only [toyState, List.mem_cons, List.not_mem_nil, or_false] at hst
